@@ -549,6 +549,29 @@ def run(ctx):
             ctx.inst("C17.R9", "%s->units::convert[%d]" % (name.replace("blots_core::", ""), n9), verdict, "; ".join(det) + " (want as_number(args[0]), as_string(args[1]), as_string(args[2]) through value-preserving conversions only)", fn.loc(b))
             n9 += 1
 
+    # the number the convert built-in answers with is what units::convert returned, on every path (no shortcut that skips the look-ups)
+    BA = M.BuiltinArms(core, M.CallGraph([core]))
+    fr = BA.region("Convert")
+    if fr is None:
+        ctx.inst("C17.R9", "Convert#result", None, "no Convert arm found", None)
+    else:
+        fn_, blocks_ = fr
+        vals = []
+        for b in sorted(blocks_):
+            if fn_.blocks[b].get("cleanup"):
+                continue
+            for st_ in fn_.stmts(b):
+                if st_["k"] == "assign" and st_["rv"]["k"] == "agg" and (st_["rv"].get("adt") or "").endswith("values::Value") and st_["rv"].get("variant") == "Number":
+                    roots = fn_.trace(st_["rv"]["ops"][0])
+                    vals.append((b, roots))
+        if not vals:
+            ctx.inst("C17.R9", "Convert#result", None, "no Value::Number construction found in the Convert arm (result built elsewhere?)", fn_.loc())
+        for i_, (b, roots) in enumerate(vals):
+            good = bool(roots) and all(r[0] == "call" and r[1] == "blots_core::units::convert" for r in roots)
+            foreign = [r[:2] for r in roots if not (r[0] == "call" and r[1] == "blots_core::units::convert")]
+            ctx.inst("C17.R9", "Convert#result[%d]" % i_, True if good else (False if any(r[0] in ("call", "param") for r in foreign) else None),
+                     "the arm answers Number(%s)%s" % ([r[:2] for r in roots], "" if good else ": a result that did not go through units::convert skips unit resolution and the category gate"), fn_.loc(b))
+
 
 REFERENCE = {
     # exact definitions (SI brochure / international yard and pound agreement 1959 / NIST SP 811), name -> (category, value in the table's base unit)
